@@ -305,7 +305,7 @@ Theorem tsig_not_last_is_formerror :
     fst tp = TSIG ->
     (section <> 3 \/ fst cp <> ANY \/ i <> count - 1) ->
     get_rr H w kr rmac now multi section count i st = Lib eBadTSIG /\ is_formerror eBadTSIG = true.
-Proof. intros. split; [eapply get_rr_misplaced; eassumption | reflexivity]. Qed.
+Proof. exact get_rr_misplaced_formerror. Qed.
 Print Assumptions tsig_not_last_is_formerror.
 
 (* ... hence in every message that is read without error a TSIG record is the last one *)
